@@ -212,7 +212,9 @@ fn run_real<V: VirtualFileSystem>(v: &V, root: &str, o: &WOpts, cap: Option<u16>
 
 fn gen_tree(rng: &mut Rng, max_nodes: usize, allow_chain: bool) -> NTree {
     let mut t = NTree::fresh();
-    let names = ["a", "b", "c", "ab", "d"];
+    // every third tree uses names that are string prefixes of each other (a path-prefix test done on text instead of
+    // components confuses such siblings)
+    let names: [&str; 5] = if rng.chance(1, 3) { ["a", "ab", "abc", "a.b", "b"] } else { ["a", "b", "c", "ab", "d"] };
     let n = 2 + rng.below(max_nodes - 1);
     for _ in 0..n {
         let dirs: Vec<String> = t.nodes.iter().filter(|(_, n)| n.kind == NKind::Dir).map(|(k, _)| k.clone()).collect();
@@ -454,7 +456,7 @@ fn c08(ctx: &Ctx, rep: &mut Report) {
     let (sb, sroot) = Sandbox::nested("c08");
     let recs = option_records();
     let mut rng = ctx.rng("c08");
-    let trees = if ctx.thorough { 4000 } else { 320 } / ctx.shards + 1;
+    let trees = if ctx.thorough { 40_000 } else { 4_000 } / ctx.shards + 1;
     let stride = if ctx.thorough { 1 } else { 3 };
     let max_nodes = if ctx.thorough { 25 } else { 12 };
     if ctx.shard == 0 {
